@@ -5,7 +5,7 @@ package shellfuncsfile
 // Converter.FS (a documented field) is a harness-defined file system whose single directory
 // "d" holds e entries with SYMBOLIC names (assumed sorted and distinct, as fs.ReadDir
 // guarantees), symbolic kinds (regular, directory, symlink to a regular file, dangling
-// symlink) and symbolic contents.  The filter table is user-modified: "*.p" and "?x*" are
+// symlink) and symbolic contents.  The filter table is user-modified: "*.p" and "?.*" are
 // tagging filters (so the oracle sees which filter ran), "*.s" is the real FromShell.
 
 import (
@@ -202,8 +202,8 @@ func HarnessC17Dir() {
 	c.SetFilter("*.subr", nil)
 	c.SetFilter("*.s", FromShell)
 	c.SetFilter("*.p", tagP)
-	c.SetFilter("?x*", tagX)
-	// oracle: patterns in sorted order are "*.p" < "*.s" < "?x*"
+	c.SetFilter("?.*", tagX)
+	// oracle: patterns in sorted order are "*.p" < "*.s" < "?.*"
 	var want []byte
 	for _, e := range h.entries {
 		if e.kind != kRegular && e.kind != kSymlink {
@@ -218,7 +218,7 @@ func HarnessC17Dir() {
 			part = append([]byte("P:"), e.data...)
 		case hasSuffix2(e.name, '.', 's'):
 			part = append([]byte{}, e.data...)
-		case len(e.name) >= 2 && e.name[1] == 'x':
+		case len(e.name) >= 2 && e.name[1] == '.':
 			part = append([]byte("X:"), e.data...)
 		default:
 			continue
@@ -231,7 +231,7 @@ func HarnessC17Dir() {
 	// a dangling symlink whose name is eligible (matching, not a dot-file) is allowed to fail the conversion
 	mayFail := false
 	for _, e := range h.entries {
-		if e.kind == kDangling && e.name[0] != '.' && (hasSuffix2(e.name, '.', 'p') || hasSuffix2(e.name, '.', 's') || len(e.name) >= 2 && e.name[1] == 'x') {
+		if e.kind == kDangling && e.name[0] != '.' && (hasSuffix2(e.name, '.', 'p') || hasSuffix2(e.name, '.', 's') || len(e.name) >= 2 && e.name[1] == '.') {
 			mayFail = true
 		}
 	}
